@@ -103,6 +103,14 @@ CLAIMED.update({
         design="DESIGN.md section 5, C15"),
 })
 
+CLAIMED.update({
+    "C07": dict(
+        text="Deductive proof (Verus) on the conditional-compilation state machine of cpp::process, cut per directive from the real text: with the abstraction 'one frame (branch-selected-already, this-branch-selected) per open group', every state/stack update of #ifdef #ifndef #if #elif #else #endif implements the reference semantics of the property (first branch whose condition holds, #else when none did, groups inside unselected text inert), the state is Active exactly when every enclosing branch is the selected one, #endif without #if is an error, and the guards of #define #undef #include #error and of ordinary lines are proved equal to 'Active'.",
+        note="Partial: the #if expression evaluator (evaluate/eval_eq/…: string slicing) and the recognition of directives (starts_with, splitn) are not under contract; the conditions' truth values are parameters. Well-nestedness is the property's premise.",
+        technique="contract-based deductive verification (Verus; refinement of a reference transition system by the statements extracted mechanically from /repo)",
+        design="DESIGN.md section 5, C07"),
+})
+
 NOT_APPLICABLE = {
     "C11": "no contract within reach: the property is about the comment/splice scanner in cpp::process (str::split*/byte slicing without vstd specifications), pest WHITESPACE/COMMENT rules (generated parser) and a relation between two whole compilations",
 }
